@@ -79,8 +79,12 @@ CLAIMED = {
             "with every neighbors() call going through the memo in the order the code makes them (EG.TravState): C05_traversal_transparent, C05_search_transparent, C05_traversal_flag_irrelevant, "
             "C05_search_flag_irrelevant, C05_all_histories_with_traversals, C05_history_traversal_answers (EG/Props/C05Trav.lean). Correspondence in audit mode: after every "
             "mutating op every vertex is queried under several keys with caching on; oracle: answer with caching on = answer recomputed with the flag off (also for traversals/searches); "
-            "graphs with warm caches are pickled and re-queried in a fresh interpreter.",
-            "Process boundaries are exercised, not modelled. Filters are assumed pure.", "DESIGN.md 3/C05"),
+            "graphs with warm caches are pickled and re-queried in a fresh interpreter. The un-pickled clause (EG.Copy, EG/Props/C05Copy.lean): an un-pickled graph is an isomorphic copy "
+            "(objects renamed by any permutation, ordered containers in order, memo tables carried along, the flag whatever it is in the loading interpreter); C05_copy_recomputes, C05_copy_cacheOK "
+            "(memos correct before pickling are correct in the copy), C05_unpickled_transparent, inv_copy, C05_histories_across_pickling (any history, pickle + load, any further history: Inv and CacheOK "
+            "after every prefix). C05_unhashable_never_cached: arguments that cannot be a memo key are answered by recomputation.",
+            "That un-pickling yields an isomorphic copy is C10's subject (proved for the abstract machines, tested for the real loader); here it is the definition of World.copy and is exercised in a subprocess. "
+            "Filters are assumed pure.", "DESIGN.md 3/C05"),
     "C10": ("Lean 4 proof (partial: scheduling + abstract round trip): the queue machine of the non-recursive pickler refines the recursive pickler for every heap and depth, and an abstract unpickler run on that stream rebuilds the heap up to isomorphism with sharing preserved; three-layer correspondence (event trace vs machine, opcode stream vs dill, load-and-compare incl. fresh interpreter)",
             "Theorems C10_nr_refines_rec / C10_dump_eq (for every abstract object heap, every depth and any pending queue, the deferred-save queue machine emits the recursive pickler's "
             "opcode stream up to build-pop-GET = discard-GET, with the same memo), C10_step_flat (one iteration handles one item and expands at most one object by one level: no recursion), "
